@@ -159,7 +159,7 @@ func (e *Engine) vapi(g *Goroutine, name string, args []Value, fn *ssa.Function)
 	case "Concrete":
 		// Concrete(x uint64) uint64: fork over the feasible values of x
 		return e.c64(int64(e.Concretize(args[0].(*term.T), "vapi.Concrete"))), true
-	case "Engine":
+	case "Engine", "Has":
 		return e.tb.True, true
 	case "Note":
 		e.tracef("note: %s", describe(args[0]))
